@@ -14,6 +14,7 @@ pub mod c02;
 pub mod c03;
 pub mod c04;
 pub mod c05;
+pub mod c06;
 pub mod c07;
 pub mod c08;
 pub mod c09;
@@ -23,6 +24,7 @@ pub mod c11;
 pub mod c12;
 pub mod rt;
 pub mod c16;
+pub mod c17;
 pub mod docs;
 
 #[derive(Clone, Debug)]
@@ -296,6 +298,7 @@ pub fn lookup(prop: &str) -> Option<PropFn> {
         "C03" => Some(c03::run),
         "C04" => Some(c04::run),
         "C05" => Some(c05::run),
+        "C06" => Some(c06::run),
         "C07" => Some(c07::run),
         "C08" => Some(c08::run),
         "C09" => Some(c09::run),
@@ -303,6 +306,7 @@ pub fn lookup(prop: &str) -> Option<PropFn> {
         "C11" => Some(c11::run),
         "C12" => Some(c12::run),
         "C16" => Some(c16::run),
+        "C17" => Some(c17::run),
         "C05A" => Some(rt::c05a),
         "C11A" => Some(rt::c11a),
         "C20" => Some(rt::c20),
